@@ -90,7 +90,7 @@ class C11(Check):
     world = 'routing-table'
     level = 'fault_enumeration'
     design_ref = 'DESIGN.md 3.5'
-    runs = {'quick': 1500, 'thorough': 20000}
+    runs = {'quick': 1500, 'thorough': 8000}
     shrink_lists = (('ops',),)
     rule = ('histories (<= 24 ops quick, <= 64 thorough) over a pool of <= 4 applications and <= 8 Route objects: construct '
             'application (possibly with a failing k-th entry), add route / tuple / SubApplication / (prefix, app) at an index, '
